@@ -340,7 +340,7 @@ def run_case(case, extra=None):
 
 def run_errors(obs):
     """runErrors entries of the final context as python dicts."""
-    for k, v in obs['ctx']:
+    for k, v in obs.get('ctx') or []:
         if k == 'runErrors' and isinstance(v, dict) and 'l' in v:
             return [{kk: vv for kk, vv in e['d']} for e in v['l'] if isinstance(e, dict) and 'd' in e]
     return []
